@@ -594,7 +594,7 @@ fn h_vector_get(len1: usize) {
         Ok(BuiltinResult::Value(v)) => {
             assert!(width_ok, "value returned for an unsupported lane width");
             let w = width as usize;
-            let present = index >= 0 && len % w == 0 && (index + 1) * (w as i128) <= len as i128;
+            let present = index >= 0 && index < (1i128 << 64) && len % w == 0 && (index + 1) * (w as i128) <= len as i128;
             match v {
                 Value::Integer(n) => {
                     assert!(present, "lane returned for an absent index");
